@@ -411,6 +411,7 @@ def targets(ctx):
             yield {"matrix": lab}
         yield {"matrix": "google_packages"}
         yield {"matrix": "service_names"}
+        yield {"matrix": "types_named_like_wkt"}
 
     def service_files():
         body = "message Q { int32 a = 1; }\n" + "".join(
@@ -444,7 +445,13 @@ def targets(ctx):
                 return Eval(fails, weight=len(SVC_NAMES), nontrivial_count=len(SVC_NAMES), labels=["matrix:service_names"])
             finally:
                 c.cleanup()
-        files = GOOGLE_PKGS if case["matrix"] == "google_packages" else matrix_files(case["matrix"])
+        if case["matrix"] == "types_named_like_wkt":
+            # user-defined messages / enums merely NAMED like well-known types, in every position (protos/wktlike.proto)
+            import os
+
+            files = {"wktlike.proto": open(os.path.join(env.VERIF, "protos", "wktlike.proto")).read()}
+        else:
+            files = GOOGLE_PKGS if case["matrix"] == "google_packages" else matrix_files(case["matrix"])
         c = gen.compile_files(files, tag="c03m_")
         try:
             found = validate_by_name(c)
